@@ -55,9 +55,17 @@ def schema_text(version):
   <xs:key name="NK"><xs:selector xpath="n"/><xs:field xpath="@lo"/></xs:key>
   <xs:keyref name="NR" refer="NK"><xs:selector xpath="n"/><xs:field xpath="@hi"/></xs:keyref></xs:element>
 <xs:element name="R2" type="RT"><xs:unique name="K2"><xs:selector xpath=".//item"/><xs:field xpath="."/></xs:unique></xs:element>
+<xs:complexType name="B2"><xs:complexContent><xs:extension base="B"><xs:attribute name="kind" type="xs:string"/></xs:extension></xs:complexContent></xs:complexType>
+<xs:complexType name="C2"><xs:complexContent><xs:extension base="C"><xs:attribute name="kind" type="xs:string"/></xs:extension></xs:complexContent></xs:complexType>
+<xs:element name="R4"><xs:complexType><xs:sequence>
+  <xs:element name="sh" type="A" minOccurs="0" maxOccurs="unbounded">%s</xs:element>
+  <xs:element name="lk" minOccurs="0" maxOccurs="unbounded"><xs:complexType><xs:anyAttribute namespace="##other" processContents="strict"/></xs:complexType></xs:element>
+</xs:sequence><xs:anyAttribute namespace="##other" processContents="lax"/></xs:complexType></xs:element>
 %s</xs:schema>''' % ('<xs:assertion test="$value ne 4"/>' if v11 else '',
                    '<xs:attribute name="lang" type="xs:string" inheritable="true"/>' if v11 else '<xs:attribute name="lang" type="xs:string"/>',
                    '<xs:assert test="not(@lo) or not(@hi) or @lo le @hi"/>' if v11 else '',
+                   # XSD 1.1: the type table selects the governing type, an xsi:type must then be derived from the selected type
+                   '<xs:alternative test="@kind=\'b\'" type="B2"/><xs:alternative test="@kind=\'c\'" type="C2"/>' if v11 else '',
                    '<xs:element name="R3" type="RT"><xs:unique ref="K"/></xs:element>' if v11 else '')
 
 
@@ -71,7 +79,7 @@ OTHER2 = ('<xs:schema xmlns:xs="http://www.w3.org/2001/XMLSchema" targetNamespac
 
 
 # ------------------------------------------------------------------ documents
-def gen_doc(rng):
+def gen_doc(rng, r4=False):
     """returns {'xml', 'nodes'}; nodes = abstract pre-order node list for History.v (None for the other families)"""
     root = rng.choice(['R', 'R', 'R', 'R2', 'R3', 'a', 'a'])
     ns = 'xmlns:xsi="%s" xmlns:o="%s"' % (XSI, ONS)
@@ -99,6 +107,20 @@ def gen_doc(rng):
                 body += '<item>%d</item>' % v
                 node({'B': 2, 'C': 3}[t], None, True, v if t == 'B' else 100 + v)
         return '<a%s%s%s>%s</a>' % (' ' + ns if top else '', ' xsi:type="%s"' % t if t else '', attrs, body)
+    if r4 or root == 'a' and rng.random() < 0.3:
+        # R4: no identity constraint; elements with a type table (XSD 1.1) and xsi:type, attributes of a namespace that is
+        # loaded on demand (XLink, bundled with the library) matched by lax and strict attribute wildcards
+        body = ''
+        for _ in range(rng.randint(0, 3)):
+            kind = rng.choice(['b', 'c', 'z', None])
+            xt = rng.choice([None, 'B', 'B2', 'C2', 'C', 'A'])
+            body += '<sh%s%s>%s</sh>' % (' kind="%s"' % kind if kind else '', ' xsi:type="%s"' % xt if xt else '',
+                                         '<item>1</item>' if xt in ('B', 'B2', 'C', 'C2') and rng.random() < 0.5 else '')
+        XL = 'xmlns:xlink="http://www.w3.org/1999/xlink"'
+        for _ in range(rng.choice([0, 0, 1, 2])):
+            body += '<lk %s xlink:%s/>' % (XL, rng.choice(['type="simple"', 'type="bogus"', 'show="new"', 'nothing="1"', 'href="x y"']))
+        top = ' %s xlink:type="%s"' % (XL, rng.choice(['simple', 'none', 'wrong'])) if rng.random() < 0.4 else ''
+        return {'xml': '<R4 %s%s>%s</R4>' % (ns, top, body), 'nodes': [], 'root': 'R4'}
     if root == 'a':
         return {'xml': a_elem(top=True), 'nodes': nodes, 'root': root}
     node({'R': 10, 'R2': 11, 'R3': 12}[root], None, False, 0)
@@ -302,13 +324,45 @@ def subject(case):
             fresh_memo[key] = apply_op(xmlschema, make_schema(xmlschema, case['version']), op, docs[di], arg)
         return fresh_memo[key]
 
-    def run(history):
+    XLINK = 'http://www.w3.org/1999/xlink'
+    stale_memo = {}
+    findings = []
+
+    def preloaded():
+        s = make_schema(xmlschema, case['version'])
+        s.maps.loader.load_namespace(XLINK)
+        return s
+
+    def mask(errors):
+        return sorted(e for e in errors if 'cannot substitute' not in e and '|/R4/sh' not in e)
+
+    def stale_components(op, di, arg, r):
+        """known finding F-C10a: the document makes a fresh schema load the XLink namespace during the validation, which
+        rebuilds the global components; the elements validated afterwards are still the old components, so an xsi:type
+        is refused ('cannot substitute').  Attributed only when (1) the errors of a fresh schema and of a fresh schema
+        with XLink loaded beforehand differ in nothing but 'cannot substitute' errors and errors under the xsi:typed
+        elements, and (2) the used schema's result equals that of the preloaded fresh schema."""
+        xml = docs[di]['xml']
+        if 'xlink' not in xml or 'xsi:type' not in xml:
+            return False
+        if di not in stale_memo:
+            e1 = apply_op(xmlschema, make_schema(xmlschema, case['version']), 'iter_errors', docs[di], 0)
+            e2 = apply_op(xmlschema, preloaded(), 'iter_errors', docs[di], 0)
+            stale_memo[di] = (isinstance(e1, list) and isinstance(e2, list) and mask(e1) == mask(e2)
+                              and any('cannot substitute' in e and e not in e2 for e in e1))
+        return stale_memo[di] and r == apply_op(xmlschema, preloaded(), op, docs[di], arg)
+
+    def run(history, record=False):
         used = make_schema(xmlschema, case['version'])
         results = []
         for k, (op, di, arg) in enumerate(history):
             r = apply_op(xmlschema, used, op, docs[di], arg)
             results.append(r)
             if r != fresh(op, di, arg):
+                if stale_components(op, di, arg, r):
+                    if record:
+                        findings.append(docs[di]['xml'])
+                    continue
                 return k, r, results, used
         return None, None, results, used
     hist = [tuple(h) for h in case['history']]
@@ -316,8 +370,9 @@ def subject(case):
     # state kept at class or module level by an earlier call then shows up as a difference too
     for key in sorted(set(hist), key=lambda h: (h[0] == 'decode_typed', h)):
         fresh(*key)
-    k, r, results, used = run(hist)
-    out = {'steps': len(hist), 'results': None, 'mismatch': None, 'probe': scratch_and_cache_probe(xmlschema, used)}
+    k, r, results, used = run(hist, record=True)
+    out = {'steps': len(hist), 'results': None, 'mismatch': None, 'probe': scratch_and_cache_probe(xmlschema, used),
+           'stale_components': findings}
     out['dup_counts'] = [[sum('duplicated value' in e and "'K'" in e for e in errs_of(res)),
                           sum('duplicated value' in e and "'K2'" in e for e in errs_of(res))] if op in PLAIN else None
                          for (op, di, arg), res in zip(hist, results)]
@@ -373,6 +428,8 @@ def evaluate(ctx, cases):
             ctx.dist('operation', op)
         ctx.dist('history length', len(c['history']))
         ctx.count(('hist', c['version'], json.dumps(c['history'])[:200], c['seed']), nontrivial=len(c['history']) > 1, n=len(c['history']))
+        for _x in o.get('stale_components') or []:
+            ctx.known_finding('F-C10a')
         if o['mismatch']:
             mm = o['mismatch']
             ctx.violation('after the history %s the call %s on %s returns %s, a fresh schema object returns %s [XSD %s]'
@@ -413,6 +470,14 @@ def gen(ctx):
         history = [[r.choice(['is_valid', 'iter_errors', 'decode_lax', 'validate', 'lazy_errors', 'decode_typed']), r.randrange(4), r.randint(0, 7)]
                    for _ in range(r.randint(3, 8))]
         cases.append({'seed': seed, 'version': '1.1' if i % 2 else '1.0', 'docs': docs, 'history': history})
+    # focused: pools of R4 documents only (type table x xsi:type, attributes of a namespace loaded on demand)
+    for i in range(30 if ctx.quick() else 400):
+        seed = ctx.rng.randrange(10 ** 9)
+        r = random.Random(seed)
+        docs = [gen_doc(r, r4=True) for _ in range(r.randint(2, 5))]
+        history = [[r.choice(['is_valid', 'iter_errors', 'decode_lax', 'validate', 'to_objects', 'decode_typed', 'lazy_errors']),
+                    r.randrange(len(docs)), r.randint(0, 7)] for _ in range(r.randint(2, 8))]
+        cases.append({'seed': seed, 'version': '1.1' if i % 3 else '1.0', 'docs': docs, 'history': history})
     return cases
 
 
